@@ -15,6 +15,16 @@ VF(g, x) == IF g = 1 THEN V1(x) ELSE V2(x)
 CF(g, x) == IF g = 1 THEN C1(x) ELSE C2(x)
 CanonJ(g, j) == CF(g, j[1]) /\ CF(g, j[2]) /\ CF(g, j[3])
 
+\* Tier A at the real parameters: the exact Jacobian triple the coded formula yields (diagnostic: a correct implementation may
+\* legitimately return another representative; a mismatch here with a correct value means the code no longer has the modelled shape)
+A1 == INSTANCE CurveAlg WITH FZero <- Zero, FOne <- One, FAdd <- QAdd, FSub <- QSub, FMul <- QMul, FNeg <- QNeg, FInv <- QInv
+A2 == INSTANCE CurveAlg WITH FZero <- F2!EZero, FOne <- F2!EOne, FAdd <- F2Add, FSub <- F2Sub, FMul <- F2Mul, FNeg <- F2Neg, FInv <- F2Inv
+VJ(g, j) == <<VF(g, j[1]), VF(g, j[2]), VF(g, j[3])>>
+VA(g, a) == <<VF(g, a[1]), VF(g, a[2]), a[3]>>
+AlgAdd(g, a, b) == IF g = 1 THEN A1!JAdd(VJ(g, a), VJ(g, b)) ELSE A2!JAdd(VJ(g, a), VJ(g, b))
+AlgMixed(g, a, b) == IF g = 1 THEN A1!JAddMixed(VJ(g, a), VA(g, b)) ELSE A2!JAddMixed(VJ(g, a), VA(g, b))
+AlgDbl(g, a) == IF g = 1 THEN A1!JDouble(VJ(g, a)) ELSE A2!JDouble(VJ(g, a))
+
 \* affine point denoted by a Jacobian triple / an affine record of the trace
 JacPt(g, j) == IF g = 1 THEN E1!JacToAffine(V1(j[1]), V1(j[2]), V1(j[3])) ELSE E2!JacToAffine(V2(j[1]), V2(j[2]), V2(j[3]))
 AffPt(g, a) == IF a[3] # 0 THEN <<>> ELSE <<VF(g, a[1]), VF(g, a[2])>>
@@ -34,11 +44,14 @@ Abs(x) == IF x < 0 THEN 0 - x ELSE x
 PointChecks(ev) ==
   LET g == ev.g  o == ev.op IN
   CASE o = "pt.add" -> LET A == JacPt(g, ev.a)  Bp == IF ev.alias = 3 THEN A ELSE JacPt(g, ev.b) IN
-         << <<"pre.oncurve", OnC(g, A) /\ OnC(g, Bp)>>, <<"canon", CanonJ(g, ev.out.r)>>, <<"value", JacIsG(g, ev.out.r, PAddG(g, A, Bp))>> >>
+         << <<"pre.oncurve", OnC(g, A) /\ OnC(g, Bp)>>, <<"canon", CanonJ(g, ev.out.r)>>, <<"value", JacIsG(g, ev.out.r, PAddG(g, A, Bp))>>,
+            <<"diag.alg-shape", VJ(g, ev.out.r) = AlgAdd(g, ev.a, IF ev.alias = 3 THEN ev.a ELSE ev.b)>> >>
     [] o = "pt.add_mixed" -> LET A == JacPt(g, ev.a)  Bp == AffPt(g, ev.b) IN
-         << <<"pre.oncurve", OnC(g, A) /\ OnC(g, Bp)>>, <<"canon", CanonJ(g, ev.out.r)>>, <<"value", JacIsG(g, ev.out.r, PAddG(g, A, Bp))>> >>
+         << <<"pre.oncurve", OnC(g, A) /\ OnC(g, Bp)>>, <<"canon", CanonJ(g, ev.out.r)>>, <<"value", JacIsG(g, ev.out.r, PAddG(g, A, Bp))>>,
+            <<"diag.alg-shape", VJ(g, ev.out.r) = AlgMixed(g, ev.a, ev.b)>> >>
     [] o = "pt.dbl" -> LET A == JacPt(g, ev.a) IN
-         << <<"pre.oncurve", OnC(g, A)>>, <<"canon", CanonJ(g, ev.out.r)>>, <<"value", JacIsG(g, ev.out.r, PDblG(g, A))>> >>
+         << <<"pre.oncurve", OnC(g, A)>>, <<"canon", CanonJ(g, ev.out.r)>>, <<"value", JacIsG(g, ev.out.r, PDblG(g, A))>>,
+            <<"diag.alg-shape", VJ(g, ev.out.r) = AlgDbl(g, ev.a)>> >>
     [] o = "pt.neg" -> << <<"canon", CanonJ(g, ev.out.r)>>, <<"value", JacIsG(g, ev.out.r, PNegG(g, JacPt(g, ev.a)))>> >>
     [] o = "pt.aneg" -> << <<"value", AffPt(g, ev.out.r) = PNegG(g, AffPt(g, ev.a))>>,
                            <<"canon", ev.out.r[3] # 0 \/ (CF(g, ev.out.r[1]) /\ CF(g, ev.out.r[2]))>> >>
